@@ -1,6 +1,8 @@
 #!/bin/bash
-# try_seed.sh <seed-dir-name> <property> [tier]  : apply the seeded patch to /repo, run the check, undo.
-SD=/verif/seeded/$1; P=$2; T=${3:-quick}
-git -C /repo apply $SD/patch.diff || { echo "patch failed"; exit 2; }
-cd /verif && bin/check $P --tier $T 2>&1 | grep -v "^\[build\]" | cut -c1-400 | tail -${LINES_OUT:-6}
-git -C /repo checkout -- . ; git -C /repo status --short | grep -v _build
+# try_seed.sh <seed-dir-name> <property> [tier] : run a check against a scratch worktree of /repo with the seeded patch
+# applied (VERIF_REPO), evidence redirected; /repo itself is never touched, so background runs against /repo stay valid.
+SD=/verif/seeded/$1; P=$2; T=${3:-quick}; WT=/tmp/ts/$1.$$
+mkdir -p /tmp/ts; git -C /repo worktree add --detach $WT HEAD >/dev/null 2>&1 || { echo "worktree failed"; exit 2; }
+git -C $WT apply $SD/patch.diff || { echo "patch failed"; git -C /repo worktree remove --force $WT; exit 2; }
+cd /verif && VERIF_REPO=$WT VERIF_EVIDENCE_DIR=/tmp/ts/ev.$$ bin/check $P --tier $T 2>&1 | grep -v "^\[build\]" | cut -c1-400 | tail -${LINES_OUT:-6}
+git -C /repo worktree remove --force $WT; rm -rf /tmp/ts/ev.$$
